@@ -300,12 +300,23 @@ impl Scenario for C09Stub {
             } else {
                 // Pages of arbitrary dimensions, unrelated to the sign's own.
                 let huge = cx.chance(1, 150);
-                let n = if huge { 1 + cx.draw(2) } else { *cx.pick(&[1u64, 0, 2, 3, 5, 9]) };
+                let many = !huge && cx.chance(1, 120);
+                if many {
+                    cx.probe("more_than_256_pages_in_one_list");
+                }
+                let n = if huge { 1 + cx.draw(2) } else if many { 257 + cx.draw(400) } else { *cx.pick(&[1u64, 0, 2, 3, 5, 9]) };
                 let mut pages: Vec<Page<'static>> = Vec::new();
                 for k in 0..n {
                     let (w, h) = if huge && k == 0 {
                         cx.probe("offset_reaches_0xFFF0");
                         (16383u32, 32u32)
+                    } else if many {
+                        (12u32, 8u32)
+                    } else if k > 0 && cx.chance(1, 6) {
+                        // the same page again, byte for byte
+                        let last: Page<'static> = pages.last().unwrap().clone();
+                        pages.push(last);
+                        continue;
                     } else {
                         match cx.draw(4) {
                             0 => t.dimensions(),
